@@ -309,7 +309,24 @@ def run(model, rep):
     rule_a(model, rep)
     rule_b(model, rep)
     rule_c(model, rep)
+    rule_marker_text(model, rep)
     rule_d(model, rep)
     # unix_disabled.using(marker=...) must store the marker without touching the tables disable()/enable() work from
     _c09.rule_d(model, _Renamed(rep, {"C09.d": "C18.e-using-sanitised-store"}, "C18.x-", only=lambda s: "unix_disabled" in s or "django_disabled" in s))
     rep.minimum("C18.e-using-sanitised-store", 1)
+
+
+def rule_marker_text(model, rep):
+    """enable() and disable() compare the configured marker with text hashes (`hash.startswith(cls.default_marker)`): the marker that using()
+    stores is therefore text -- a bytes marker is converted, exactly as a bytes hash is"""
+    R = "C18.c-enable-disable"
+    M = "passlib.handlers.misc"
+    fn = model.func(M, "unix_disabled.using")
+    s = site(M, "unix_disabled.using") + " marker type"
+    store = [a for a in walk_no_nested(fn) if isinstance(a, ast.Assign) and ast.unparse(a.targets[0]) == "subcls.default_marker"]
+    conv = [a for a in walk_no_nested(fn) if isinstance(a, ast.Assign) and ast.unparse(a.targets[0]) == "marker" and isinstance(a.value, ast.Call)
+            and ast.unparse(a.value.func).split(".")[-1] in ("to_native_str", "to_unicode") and a.value.args and ast.unparse(a.value.args[0]) == "marker"]
+    ok = len(store) == 1 and ((ast.unparse(store[0].value) == "marker" and conv and (conv[0].lineno, conv[0].col_offset) < (store[0].lineno, store[0].col_offset))
+                              or (isinstance(store[0].value, ast.Call) and ast.unparse(store[0].value.func).split(".")[-1] in ("to_native_str", "to_unicode")))
+    rep.check(ok, R, s, ast.unparse(store[0]) if store else "<no store>", "the marker is converted to text before it is stored as default_marker",
+              witness="CryptContext(['sha256_crypt','unix_disabled'], unix_disabled__marker=b'*'): ctx.enable(ctx.disable(h)) raises TypeError('startswith first arg must be str ...')")
